@@ -143,7 +143,7 @@ class Project:
                 GeneratorError(
                     level=ErrorLevel.ERROR,
                     header=f"{cmd_name} failed",
-                    detail=err.stderr.decode() or err.output.decode(),
+                    detail=err.stderr.decode(errors="replace") or err.output.decode(errors="replace"),
                 )
             )
 
